@@ -486,7 +486,7 @@ Theorem decimal_decode_ok p s neg ip fp pre rest :
   decode_decimal (pre ++ enc_decimal p s neg ip fp ++ rest) (List.length pre) (p * 256 + s)
   = Ok (Some (text_decimal neg ip fp), len (enc_decimal p s neg ip fp)).
 Proof.
-  intros Hty Hval. cbn [wf_type wf_value] in Hty, Hval. wfprops.
+  intros Hty Hval. cbn [wf_type wf_value] in Hty, Hval. unfold wf_decimalb in Hval. wfprops.
   assert (Hip : digit_vals ip) by (apply digitsb_vals; assumption).
   assert (Hfp : digit_vals fp) by (apply digitsb_vals; assumption).
   assert (Hp : 1 <= p <= 65) by lia. assert (Hs : 0 <= s <= 30) by lia. assert (Hsp : s <= p) by lia.
